@@ -144,10 +144,10 @@ class Session:
             raise Violation(f"C09/graph-mismatch-{kind}", diff_sig(self.model.signature(), real))
 
     # -- C08 oracle ----------------------------------------------------------------------
-    def read(self, what: str, where: str):
+    def read(self, what: str, where: str, tag_prefix: str = "C08/stale:"):
         """Reads one public lookup and compares it with a recomputation from the graph *now*."""
         net, G, lab = self.net, self.G(), self.U.label
-        tag = f"C08/stale:{what}"
+        tag = f"{tag_prefix}{what}"
 
         def fail(msg):
             raise Violation(tag, f"{where}: {msg}")
@@ -282,7 +282,11 @@ class Session:
         nodes = []
         for n, d in G.nodes.items():
             o = d.get("origin")
-            nodes.append((id(n), None if o is None else id(o), isinstance(o, M.MeteredOnRamp), (None if "destination" not in d else id(d["destination"]))))
+            # "ramp" is decided from the universe spec (which constructor was called), never from
+            # the library's own class hierarchy
+            lab = self.U.label(o) if o is not None else ""
+            is_ramp = lab[:1] == "o" and self.U.spec_of(lab)["cls"] in ("MeteredOnRamp", "SimplifiedMeteredOnRamp")
+            nodes.append((id(n), None if o is None else id(o), is_ramp, (None if "destination" not in d else id(d["destination"]))))
         edges = [(id(u), id(v), id(d["link"])) for u, v, d in G.edges(data=True)]
         return nodes, edges
 
@@ -439,6 +443,10 @@ class Session:
         outcome = "ok" if raised is None else type(raised).__name__
         if self.prop == "C09":
             self.c09_after(op, raised, must_reject, aborted)
+            # the described graph as seen through the element-level lookups (what a user of the
+            # network actually reads): nodes of a link, attachments of a node, names
+            for w in ("nodes_by_link", "origins_by_node", "destinations_by_node", "nodes_by_name", "links_by_name"):
+                self.read(w, where, "C09/lookup-disagrees-with-graph:")
             self.res.nontrivial = True
         return outcome
 
